@@ -219,20 +219,19 @@ func (v *globValidator) validate(pat string) {
 	}
 
 	// Handle first character if necessary
-	switch v.scan.Peek() {
-	case '/':
-		if v.isRef {
-			v.scan.Next()
-			v.invalidRefChar('/', "ref name must not start with /")
-			v.prec = true
-		}
-	case '!':
+	if v.scan.Peek() == '!' {
 		v.scan.Next()
 		if v.scan.Peek() == scanner.EOF {
 			v.unexpected('!', "! at first character (negate pattern)", "at least one character must follow !")
 			return
 		}
 		v.prec = false
+	}
+	// The ref name starts after ! when the pattern is negated
+	if v.isRef && v.scan.Peek() == '/' {
+		v.scan.Next()
+		v.invalidRefChar('/', "ref name must not start with /")
+		v.prec = true
 	}
 
 	for v.validateNext() {
